@@ -154,6 +154,8 @@ pub struct Scenario {
     pub callers: Vec<Vec<Entry>>,
     /// Optional second block executed afterwards on the same `ParallelState`.
     pub second: Option<(BlockSpec, Vec<TxSpec>)>,
+    /// Further consecutive blocks on the same state (history differential of C10 only: 3-4 blocks).
+    pub later: Vec<(BlockSpec, Vec<TxSpec>)>,
     pub profile: String,
 }
 
@@ -455,6 +457,7 @@ impl Scenario {
             precompiles: vec![],
             callers: vec![vec![Entry::Execute]],
             second: None,
+            later: vec![],
             profile: "component".into(),
         }
     }
@@ -477,6 +480,7 @@ impl Scenario {
             "precompiles": self.precompiles.iter().map(|x| x.to_json()).collect::<Vec<_>>(),
             "callers": self.callers.iter().map(|c| c.iter().map(entry_json).collect::<Vec<_>>()).collect::<Vec<_>>(),
             "second": self.second.as_ref().map(|(blk, txs)| json!({"block": blk.to_json(), "txs": txs.iter().map(|x| x.to_json()).collect::<Vec<_>>()})),
+            "later": self.later.iter().map(|(blk, txs)| json!({"block": blk.to_json(), "txs": txs.iter().map(|x| x.to_json()).collect::<Vec<_>>()})).collect::<Vec<_>>(),
         })
     }
 
@@ -512,6 +516,11 @@ impl Scenario {
                     v["second"]["txs"].as_array().unwrap().iter().map(TxSpec::from_json).collect(),
                 ))
             },
+            // absent in replay files written before the field existed
+            later: v["later"]
+                .as_array()
+                .map(|l| l.iter().map(|b| (BlockSpec::from_json(&b["block"]), b["txs"].as_array().unwrap().iter().map(TxSpec::from_json).collect())).collect())
+                .unwrap_or_default(),
         }
     }
 }
